@@ -198,6 +198,7 @@ _WM = "(SUM(weights_in * arrin) / SUM(weights_in) if inputmean is None else inpu
 contract(
     "esutil.stat.util.wmom",
     params=dict(arrin="arr[real]", weights_in="arr[real]", inputmean="opt[real]", calcerr="bool", sdev="bool"),
+    returns="tuple[real,real,real] if sdev else tuple[real,real]",
     requires={"positive-total-weight": "SUM(weights_in) > 0",
               "non-negative-weights": "all(weights_in[i] >= 0 for i in range(0, len(weights_in)))"},
     raises=[("ValueError", "len(weights_in) != len(arrin)", "iff")],
